@@ -447,4 +447,5 @@ func main() {
 	opSeek(r, nSeek)
 	opReadOffset(r, nSeek/2)
 	opGroupAndMeta(r, nScen)
+	opMappingsF(r, nSeek/2)
 }
